@@ -400,9 +400,24 @@ def evict(rep, lib, rid="C07-EVICT"):
             nxt = [c for _, c, _ in res.calls if (c.callee or "").endswith("Iterator::next")
                    or (c.callee or "").endswith("DoubleEndedIterator::next_back")]
             rev = any("std::iter::Rev<" in (c.full or "") or (c.callee or "").endswith("next_back") for c in nxt)
+            # a boxed iterator: look at what was boxed on the path explored for this direction
+            boxed = [c for c in nxt if "dyn std::iter::Iterator" in (c.full or "")]
+            if boxed:
+                srcs = []
+                for (bbv, idxv), vals in res.assigns.items():
+                    rvv = cb.stmts(bbv)[idxv]["rv"]
+                    if rvv["k"] == "cast" and "Unsize" in rvv.get("cast", ""):
+                        srcs.append(((rvv["op"].get("place") or {}).get("ty") or ""))
+                srcs = [x for x in srcs if x.startswith("std::boxed::Box<") and not x.startswith("std::boxed::Box<dyn ")]
+                if srcs:
+                    revs = ["std::iter::Rev<" in x for x in srcs]
+                    rev = revs[0] if len(set(revs)) == 1 else None
             key = "complete[%s]" % vn
             if not nxt:
                 r.bad(key, "no iteration over the buckets reachable for direction %s" % vn, cb.where())
+            elif rev is None:
+                r.bad(key, "the direction of the bucket iteration for %s is not determined by self.direction "
+                      "(unrecognised idiom)" % vn, cb.where())
             elif rev != (vn == "Desc"):
                 r.bad(key, "direction %s emits the buckets %s" % (vn, "reversed" if rev else "forward"), cb.where())
             else:
